@@ -636,7 +636,7 @@ fn ast_params(prop: &str, tier: Tier) -> AstParams {
             ..base
         },
         ("C17", Tier::Thorough) => AstParams {
-            max_lines: 10,
+            max_lines: 8,
             max_depth: 3,
             block_kinds: vec![Kind::Future, Kind::Expired, Kind::SkipFuture, Kind::SkipExpired, Kind::Unregistered],
             inline_kinds: vec![Kind::Future, Kind::Expired],
@@ -653,11 +653,11 @@ fn ast_params(prop: &str, tier: Tier) -> AstParams {
             ..base
         },
         (_, Tier::Thorough) => AstParams {
-            max_lines: 8,
+            max_lines: 6,
             max_depth: 3,
-            block_kinds: vec![Kind::Expired, Kind::Future, Kind::Targeted, Kind::SkipExpired, Kind::Unregistered],
+            block_kinds: vec![Kind::Expired, Kind::Future, Kind::SkipExpired],
             mb: true,
-            extra_indent: true,
+            shared_pairs: vec![(Kind::Expired, Kind::Expired), (Kind::Future, Kind::Expired)],
             ..base
         },
     }
